@@ -5,6 +5,7 @@
 #include "support/vp.hpp"
 #include "support/ufw.hpp"
 #include <climits>
+#include <functional>
 #include <ufw/compat/errno.h>
 #include <ufw/endpoints.h>
 
@@ -85,6 +86,7 @@ struct ScriptSink {
     int err = -EIO;
     size_t capacity = (size_t)-1;   // after this many octets: -ENOMEM
     Script script;
+    std::function<void()> hook;     // runs once, at the beginning of the next driver call (a driver that does other work - through the library - before it takes the octets)
     Sink snk;
     bool chunk;
 
@@ -96,6 +98,7 @@ struct ScriptSink {
     ssize_t transfer(const void *in, size_t n) {
         vp::tick();
         calls++;
+        if (hook) { auto h = std::move(hook); hook = nullptr; h(); }
         if (err_at >= 0 && got.size() >= (size_t)err_at) return err;
         int s = script.next();
         if (s <= 0) return s;
